@@ -76,8 +76,8 @@ def remap(op, off):
 class C12(Scenario):
     pid = "C12"
     arms = {
-        "quick": [("uniform", 4), ("digit-boundary", 4), ("multi-mesh", 3), ("salt", 4), ("warm", 2), ("shared-measure", 3), ("faulty-noise", 2), ("demo", 1), ("probe", 4), ("restart", 3), ("low-stack", 1)],
-        "thorough": [("uniform", 4), ("digit-boundary", 4), ("multi-mesh", 3), ("salt", 4), ("warm", 2), ("shared-measure", 3), ("faulty-noise", 3), ("demo", 1), ("deep", 2), ("probe", 4), ("restart", 3), ("low-stack", 1)],
+        "quick": [("uniform", 4), ("digit-boundary", 4), ("multi-mesh", 3), ("salt", 4), ("warm", 2), ("shared-measure", 3), ("faulty-noise", 2), ("demo", 1), ("probe", 4), ("restart", 3), ("low-stack", 2), ("sweep", 2)],
+        "thorough": [("uniform", 4), ("digit-boundary", 4), ("multi-mesh", 3), ("salt", 4), ("warm", 2), ("shared-measure", 3), ("faulty-noise", 3), ("demo", 1), ("deep", 2), ("probe", 4), ("restart", 3), ("low-stack", 2), ("sweep", 3)],
     }
     runs = {"quick": 4000, "thorough": 80000}
     wall = {"quick": 75, "thorough": 1300}
@@ -130,6 +130,11 @@ class C12(Scenario):
             fam["flat_form"] = 0.3
             fam["mesh_sequence"] = 0.35
             cfg["mirror_geo"] = rng.random() < 0.5
+        elif arm == "sweep":
+            cfg["n_forms"] = rng.randint(1, 2)
+            cfg["n_derived"] = rng.randint(0, 2)
+            cfg["depth"] = 2
+            fam["flat_form"] = 0.3
         elif arm == "deep":
             cfg["depth"] = rng.choice([4, 5])
             cfg["n_forms"] = rng.randint(2, 4)
@@ -403,6 +408,16 @@ class C12(Scenario):
                 if rng.random() < 0.5:
                     u_["salt"] = rng.choice(SALTS)  # restarted under another hash seed
                 units.insert(at, u_)
+        # crash-point sweep: a perturbed node rebuilds the program several times; in the j-th
+        # rebuild the first signature query of every form is cut short at the (n0+j)-th line
+        # event inside one state-carrying module and then repeated
+        if arm == "sweep":
+            fname = rng.choice(["form.py", "form.py", "algorithms/signature.py", "integral.py", "algorithms/analysis.py", "utils/sorting.py", "sorting.py", "domain.py"])
+            kind = rng.choice(["interrupt", "interrupt", "memerr"])
+            n0 = rng.randint(1, 60)
+            for j in range(1, rng.randint(4, 9)):
+                units.append({"k": "again", "n": 1, "j": j, "cut": {"kind": kind, "par": {"n": n0 + j - 1, "files": [fname]}}})
+            return {"nodes": nodes, "units": units}
         # second build in the same process
         if arm in ("warm", "shared-measure") or rng.random() < 0.3:
             units.append({"k": "again", "n": rng.randrange(len(nodes))})
@@ -441,9 +456,15 @@ class C12(Scenario):
             elif k == "again":
                 if u["n"] >= nn:
                     continue
+                off = AGAIN_OFF * u.get("j", 1)
                 for uj, v in enumerate(units):
                     if v["k"] in ("P", "obs"):
-                        steps.append([u["n"], remap(v["op"], AGAIN_OFF)])
+                        if v["k"] == "obs" and u.get("cut"):
+                            # the first query of this rebuilt form is cut short, then repeated
+                            steps.append([u["n"], ["fault", u["cut"]["kind"], u["cut"]["par"], remap(v["op"], off)]])
+                            uos.append(uj)
+                            tags.append(2)
+                        steps.append([u["n"], remap(v["op"], off)])
                         uos.append(uj)
                         tags.append(1)
         return {"nodes": plan["nodes"], "steps": steps, "unit_of_step": uos, "tags": tags}
@@ -460,7 +481,7 @@ class C12(Scenario):
         nodes = plan["nodes"]
         res = {}  # obs unit -> list of (node, pass, result)
         faults = {"interrupt": {"configured": 0, "fired": 0}, "memerr": {"configured": 0, "fired": 0}, "stack": {"configured": 0, "fired": 0}}
-        probes = {"noise_ops": 0, "noise_aborted_naturally": 0, "torn_tables_after_stack_fault": 0, "obs_total": 0, "obs_on_perturbed_node": 0, "again_builds": 0, "program_op_failed_somewhere": 0, "restarts": 0, "restart_incomplete": 0, "lowstack_op_ran_out_of_stack": 0}
+        probes = {"noise_ops": 0, "noise_aborted_naturally": 0, "torn_tables_after_stack_fault": 0, "obs_total": 0, "obs_on_perturbed_node": 0, "again_builds": 0, "program_op_failed_somewhere": 0, "restarts": 0, "restart_incomplete": 0, "lowstack_op_ran_out_of_stack": 0, "first_query_of_rebuilt_form_cut_short": 0}
         torn = set()
         incomplete = set()
         pfail = {}
@@ -470,7 +491,13 @@ class C12(Scenario):
                 continue
             ui = uos[si]
             k = units[ui]["k"]
-            if k == "obs":
+            if k == "obs" and op[0] == "fault":
+                faults[op[1]]["configured"] += 1
+                v = r.get("ok") or {}
+                if v.get("fired"):
+                    faults[op[1]]["fired"] += 1
+                    probes["first_query_of_rebuilt_form_cut_short"] = probes.get("first_query_of_rebuilt_form_cut_short", 0) + 1
+            elif k == "obs":
                 res.setdefault(ui, []).append((node, tags[si], r))
             elif k == "noise":
                 probes["noise_ops"] += 1
@@ -581,6 +608,8 @@ class C12(Scenario):
                 parts.add("restart" if u.get("salt") in (None, nodes[n]["salt"] if n < len(nodes) else None) else "restart-other-salt")
         if viol["detail"].get("second_build"):
             parts.add("again")
+            if any(u["k"] == "again" and u.get("cut") for u in plan["units"]):
+                parts.add("first-query-cut-short")
         return "+".join(sorted(parts)) or "none"
 
     # ------------------------------------------------------------------ shrinking beyond ddmin
